@@ -46,7 +46,9 @@ def run(repo: Repo, tier: str, res: CheckResult, seed: int = 0) -> None:
     genprog.c03_loader_checks(repo, tier, sub, seed, prop="C01")
     genprog.c03_dumper_checks(repo, tier, sub, seed, prop="C01")
     res.evaluated("roundtrip:absence-and-omission", True)
-    known_rt = {"TV.absence-decision": "ROUNDTRIP.present-value-read-as-absent", "TV.sieve": "ROUNDTRIP.omitted-value-not-the-default"}
+    known_rt = {"TV.absence-decision": "ROUNDTRIP.present-value-read-as-absent", "TV.sieve": "ROUNDTRIP.omitted-value-not-the-default",
+                # the dumper writes every present field (a NotRequired key that is present with None included)
+                "TV.field-write-path": "ROUNDTRIP.present-field-not-written"}
     for f in sub.findings:
         if f.rule in known_rt:
             res.add(Finding("C01", known_rt[f.rule], f.file, f.qualname, f.construct, f.message, f.line))
